@@ -1,4 +1,5 @@
 import EinxModel.Proofs.SolveUnroll
+import EinxModel.Proofs.SolveBroadcast
 /-!
 C07, the shorthands that live at stage 2/3 (`namedtensor/stage2/solve.py`, `stage3/solve.py`):
 "an ellipsis = its written-out repetition; a number = a fresh axis of that length; a scalar size for
@@ -104,5 +105,73 @@ example : (unrollInput exEll (toFun [("e0", 2)])).tensors.map (·.expr.render) =
 example : solveAll (unrollInput exEll (toFun [("e0", 2)])) =
     .unique [] [("a.1", 3), ("b.1", 2), ("a.0", 2), ("b.0", 2), ("c", 5), ("#0/0/1", 6), ("#0/0/0", 4)] := by
   decide +kernel
+
+/-! ### (4) A scalar size for an axis under an ellipsis = the repeated tuple -/
+
+/-- **Scalar constraint = repeated tuple.**  Let the constraint array `c` (any rank, e.g. a scalar)
+constrain a name whose first occurrence stands under the ellipses `pre ++ id :: suf`, the array
+being aligned with the innermost levels `suf`.  Replacing `c` by the same array repeated `d` times
+along a new leading dimension (`b=2` ↦ `b=(2,)*d`, `Constraint.broadcast`) changes the solution set
+by exactly the statement "the ellipsis `id` is repeated `d` times": same counts, same lengths, for
+all tensors and all other constraints.  (Iterating gives tuples of any rank.) -/
+theorem scalar_constraint_is_repeated_tuple (ts : List Tensor) (cs₁ cs₂ : List Constraint) (c : Constraint)
+    (d : Nat) (hwf : c.vals.length = c.shape.foldr (· * ·) 1) (pre suf : List Var) (id : Var)
+    (hst : (Input.occs ⟨ts, cs₁ ++ c :: cs₂⟩).lookup c.name = some (pre ++ id :: suf))
+    (hsuf : suf.length = c.shape.length) (ρ σ : Var → Nat) :
+    Sols ⟨ts, cs₁ ++ c.broadcast d :: cs₂⟩ ρ σ ↔ (Sols ⟨ts, cs₁ ++ c :: cs₂⟩ ρ σ ∧ ρ id = d) := by
+  have hocc : (Input.occs ⟨ts, cs₁ ++ c.broadcast d :: cs₂⟩) = Input.occs ⟨ts, cs₁ ++ c :: cs₂⟩ := rfl
+  have hrank : Sat (rankSystem true ⟨ts, cs₁ ++ c.broadcast d :: cs₂⟩) ρ ↔
+      (Sat (rankSystem true ⟨ts, cs₁ ++ c :: cs₂⟩) ρ ∧ ρ id = d) := by
+    rw [sat_rankSystem_iff, sat_rankSystem_iff, hocc]
+    simp only [List.forall_mem_append, List.forall_mem_cons]
+    rw [broadcast_rank ρ _ c d pre suf id hst hsuf]
+    constructor
+    · rintro ⟨h1, h2, h3, ⟨h4, h5⟩, h6⟩; exact ⟨⟨h1, h2, h3, h4, h6⟩, h5⟩
+    · rintro ⟨⟨h1, h2, h3, h4, h6⟩, h5⟩; exact ⟨h1, h2, h3, ⟨h4, h5⟩, h6⟩
+  have hval : Sat (rankSystem true ⟨ts, cs₁ ++ c :: cs₂⟩) ρ → ρ id = d →
+      (Sat (valueSystem ⟨ts, cs₁ ++ c.broadcast d :: cs₂⟩ ρ) σ ↔ Sat (valueSystem ⟨ts, cs₁ ++ c :: cs₂⟩ ρ) σ) := by
+    intro hR hd
+    have heq := broadcast_value_eq ⟨ts, cs₁ ++ c :: cs₂⟩ ρ hR c d hwf pre suf id hst hsuf hd
+    rw [sat_valueSystem_iff, sat_valueSystem_iff]
+    have hg : gens ⟨ts, cs₁ ++ c.broadcast d :: cs₂⟩ ρ = gens ⟨ts, cs₁ ++ c :: cs₂⟩ ρ := rfl
+    have ha : Input.axes ⟨ts, cs₁ ++ c.broadcast d :: cs₂⟩ ρ = Input.axes ⟨ts, cs₁ ++ c :: cs₂⟩ ρ := rfl
+    rw [hg, ha]
+    apply and_congr_right
+    intro _
+    simp only [List.forall_mem_append, List.forall_mem_cons]
+    apply and_congr_right
+    intro _
+    apply and_congr_left
+    intro _
+    constructor
+    · intro h a ha' hn
+      rw [← heq a ha' hn]; exact h a ha' hn
+    · intro h a ha' hn
+      have hn' : a.1 = c.name := hn
+      rw [heq a ha' hn']; exact h a ha' hn'
+  unfold Sols
+  constructor
+  · rintro ⟨hr, hv⟩
+    obtain ⟨hr', hd⟩ := hrank.mp hr
+    exact ⟨⟨hr', (hval hr' hd).mp hv⟩, hd⟩
+  · rintro ⟨⟨hr', hv⟩, hd⟩
+    exact ⟨hrank.mpr ⟨hr', hd⟩, (hval hr' hd).mpr hv⟩
+
+/-- Non-vacuity (the documentation's example `(a b)... -> a... b...` with `b=2`): against `(4, 6)` the
+scalar form and the tuple form `b=(2,2)` are both solved to `a = (2, 3)`; the tuple `b=(2,2,2)`
+contradicts the count. -/
+def exScalar (c : Constraint) : Input :=
+  { tensors := [⟨.ellipsis "e0" (.flat (.list [.axis "a", .axis "b"])), some [4, 6]⟩,
+                ⟨.list [.ellipsis "e1" (.axis "a"), .ellipsis "e2" (.axis "b")], none⟩],
+    constraints := [c] }
+
+example : (exScalar ⟨"b", [], [2]⟩).occs.lookup "b" = some ([] ++ "e0" :: []) := by decide +kernel
+
+example : (Constraint.broadcast 2 ⟨"b", [], [2]⟩).shape = [2] ∧ (Constraint.broadcast 2 ⟨"b", [], [2]⟩).vals = [2, 2] ∧
+    solveAll (exScalar ⟨"b", [], [2]⟩) =
+      .unique [("e2", 2), ("e1", 2), ("e0", 2)]
+        [("a.1", 3), ("b.1", 2), ("a.0", 2), ("b.0", 2), ("#0.1", 6), ("#0.0", 4)] ∧
+    solveAll (exScalar (Constraint.broadcast 2 ⟨"b", [], [2]⟩)) = solveAll (exScalar ⟨"b", [], [2]⟩) ∧
+    solveAll (exScalar (Constraint.broadcast 3 ⟨"b", [], [2]⟩)) = .rankNone := by decide +kernel
 
 end Einx.Solve
